@@ -81,7 +81,7 @@ def run_case(rng, idx, tier, lane, ctx):
         stored_note = {"stored": lims_seen, "declared": spec["limits"]}
     for exact in (True, False):
         for gridded in (False, True):
-            cfg = {"exact": exact, "n": rng.randint(1, 2), "seed": np_seed(rng), "pre_tau": None, "epsilon": None, "gridded": gridded}
+            cfg = {"exact": exact, "n": rng.randint(1, 2), "seed": np_seed(rng), "pre_tau": None, "epsilon": None, "gridded": gridded, "refused_first": rng.random() < 0.2}
             if not exact:
                 r = rng.random()
                 if r < 0.4:
